@@ -29,7 +29,7 @@ def stepLine (c : Sched) (toks : List String) : Sched × String :=
   | ["choose", "none"] => let (c', r, _) := c.allocChoose none; (c', s!"{resStr r} -")
   | ["choose", s] => let (c', r, j) := c.allocChoose (some s.toNat!)
                      (c', s!"{resStr r} {match j with | some j => toString j | none => "-"}")
-  | ["record", j, s, st] => let (c', r) := c.allocRecord j.toNat! s.toNat! (stOf st); (c', resStr r)
+  | ["record", j, s, st] => let (c', r) := c.allocRecordFixed j.toNat! s.toNat! (stOf st); (c', resStr r)
   | ["afail", j, s] => let (c', r) := c.allocFail j.toNat! s.toNat!; (c', resStr r)
   | ["upd", j, s, st] => let (c', r) := c.update j.toNat! s.toNat! (stOf st); (c', resStr r)
   | ["status"] => let (a, b, d) := c.status; (c, s!"{a} {b} {d}")
@@ -40,6 +40,7 @@ partial def loop (h : IO.FS.Stream) (c : Sched) (lineNo bad : Nat) : IO Nat := d
   if line.isEmpty then return bad
   let l := line.trimAscii.toString
   if l == "new" then loop h {} (lineNo + 1) bad else
+  if l.startsWith "MONITOR" then loop h c (lineNo + 1) bad else
   let parts := l.splitOn " | "
   let lr := parts[0]!.splitOn " -> "
   let toks := (lr[0]!.splitOn " ").filter (· ≠ "")
